@@ -7,6 +7,7 @@ CONSTANTS
   MaxTests = 2
   MaxTags = 0
   MaxTime = 0
+  MaxRuns = 1
 CONSTRAINT ExportC
 CONSTRAINT FirstIsT1
 INVARIANT WireWellFormed
